@@ -375,7 +375,7 @@ impl<'a> Gen<'a> {
                 let kind = self.rng.pick(kinds);
                 let forget = self.prof.forget && self.rng.chance(2, 3);
                 let unwind = !forget && self.rng.chance(1, 4);
-                OpKind::It { kind, calls: self.calls(snap.len), forget, unwind }
+                OpKind::It { kind, calls: self.calls(snap.len), forget, unwind, via: if !forget && !unwind && self.rng.chance(1, 3) { 1 + self.rng.below(5) as u8 } else { 0 } }
             }
             W_CLEAR => OpKind::Clear,
             W_CLONE => {
